@@ -95,6 +95,22 @@ pub enum EchoMutation {
     },
     /// switch the prefix size of a header (0x17 <-> 0x28)
     Qualifier,
+    /// append a copy of the last header
+    AddHeader,
+    /// exchange the first two headers
+    SwapFirstTwoHeaders,
+    /// change the index of object n in its high octet only (16-bit prefixes)
+    IndexHigh {
+        object: usize,
+    },
+    /// give header n another variation whose objects have the same size (g41v1 <-> g41v3)
+    Variation {
+        header: usize,
+    },
+    /// switch the prefix size of header n
+    QualifierOf {
+        header: usize,
+    },
 }
 
 #[derive(Clone, Debug, Serialize, Deserialize, PartialEq)]
@@ -592,6 +608,39 @@ fn mutate_echo(objects: &[u8], m: &EchoMutation) -> Vec<u8> {
         }
         EchoMutation::Qualifier => {
             if let Some(h) = hs.first_mut() {
+                h.2 = if h.2 == 0x17 { 0x28 } else { 0x17 };
+            }
+        }
+        EchoMutation::AddHeader => {
+            if let Some(h) = hs.last().cloned() {
+                hs.push(h);
+            }
+        }
+        EchoMutation::SwapFirstTwoHeaders => {
+            if hs.len() >= 2 {
+                hs.swap(0, 1);
+            }
+        }
+        EchoMutation::IndexHigh { object } => {
+            if let Some((h, o)) = locate(&hs, *object) {
+                if hs[h].2 == 0x28 {
+                    hs[h].3[o].0 ^= 0x100;
+                }
+            }
+        }
+        EchoMutation::Variation { header } => {
+            let n = hs.len().max(1);
+            if let Some(h) = hs.get_mut(*header % n) {
+                if h.0 == 41 && h.1 == 1 {
+                    h.1 = 3;
+                } else if h.0 == 41 && h.1 == 3 {
+                    h.1 = 1;
+                }
+            }
+        }
+        EchoMutation::QualifierOf { header } => {
+            let n = hs.len().max(1);
+            if let Some(h) = hs.get_mut(*header % n) {
                 h.2 = if h.2 == 0x17 { 0x28 } else { 0x17 };
             }
         }
